@@ -510,9 +510,18 @@ fn c16_one(ctx: &mut Ctx, lat: f64, lon: f64, elev: f64) {
         Rotation::Cw => "CW",
         Rotation::Ccw => "CCW",
     };
-    let want_text = format!("{:.1}° {}", deg.abs(), label);
-    if rl != label || text != want_text {
-        ctx.fail(input, format!("rotation {} text `{}`", rl, text), format!("{} `{}`", label, want_text));
+    // "the printed text agrees with the sign and magnitude": the text names the rotation (as a word of
+    // its own: "CW" is not found inside "CCW") and shows the magnitude to the precision it prints -
+    // whatever that precision is (the property does not fix the number of decimals)
+    let words: Vec<&str> = text.split(|ch: char| !ch.is_ascii_alphanumeric() && ch != '.' && ch != '-').filter(|w| !w.is_empty()).collect();
+    let names_rotation = words.iter().any(|w| *w == label) && !words.iter().any(|w| *w == if label == "CW" { "CCW" } else { "CW" });
+    let shown = words.iter().find_map(|w| w.parse::<f64>().ok().map(|x| (x, w.split('.').nth(1).map_or(0, |f| f.len()))));
+    let magnitude_ok = match shown {
+        Some((x, decimals)) => x >= 0. && (x - deg.abs()).abs() <= 0.5 * 10f64.powi(-(decimals as i32)) * (1. + 1e-9) + 1e-12,
+        None => false,
+    };
+    if rl != label || !names_rotation || !magnitude_ok {
+        ctx.fail(input, format!("rotation {} text `{}`", rl, text), format!("{} and |{}| to the printed precision, e.g. `{:.1}° {}`", label, deg, deg.abs(), label));
     }
 }
 
